@@ -488,6 +488,12 @@ func cases(tier string) []Case {
 		cs = append(cs, Case{Dialect: cd.name, Kind: "state"})
 		es := append(dfu.Edits(cd.d), dfu.Equivalences(cd.d)...)
 		for _, e := range es {
+			if strings.HasPrefix(e.Name, "col_collation_without_") || strings.HasPrefix(e.Name, "col_charset_without_") {
+				// the comparator of this check (the MySQL differ) completes the implied attribute on its
+				// desired side only, and in place: a current side that lacks it is not a state it is
+				// meant for (inspection always reports both), so these spellings are compared by C02 only.
+				continue
+			}
 			cs = append(cs, Case{Dialect: cd.name, Kind: "state", Edits: []string{e.Name}})
 		}
 		if tier == "thorough" {
